@@ -286,7 +286,8 @@ func runC30(c *fw.Ctx) {
 	c.Assume("git 2.39.5 checkout / reset --merge / reset --keep verdicts are the reference for what may be discarded; a deletion carries no content and is not judged; go-git refusing more often than git is allowed by the statement")
 
 	var fails hFailures
-	c.ParDo(n, 0, func(i int) {
+	c.ParDo(n, 0, func(k int) {
+		i := hSpread(k, n)
 		v := hVecAt(c30Dims, i)
 		sig, class := e.run(v)
 		if class == "" {
